@@ -176,6 +176,12 @@ def run(ctx: Ctx) -> None:
     # ---- dependencies carried by expansions; HTMLDocument.render ---------------------------
     for _ in range(ctx.budget(600, 8000)):
         d = trees.rand_tree(rng, rng.choice([1, 2, 3]), leaves="TTHD", names="bbivc", custom=True)
+        # documents whose sole content is an <html> or <body> tag take other code paths
+        root = rng.choice([None, None, "html", "html", "body"])
+        if root:
+            d = ("G", root, True, d[3], d[4])
+            if root == "html" and rng.random() < 0.5:
+                d = ("G", "html", True, d[3], [("G", "head", True, [], [("G", "title", True, [], [("T", "t")])])] + d[4])
         ctx.count(("deps", d), n_custom(d) >= 1, "deps through expansions")
         want_tree = subst(d)[0]
         got = safe_call(lambda: build(d).render())
